@@ -989,6 +989,8 @@ type c15Gen struct {
 	riskF *float64
 	oddID *string
 	used  bool
+	twin  string          // an id waiting for its twin: the same letters in the other case
+	twins bool            // this tree has had its pair of such ids
 	dead  map[string]bool // deleted, or below a deleted node
 	kids  map[string][]string
 	par   map[string][]string
@@ -1043,6 +1045,12 @@ func (g *c15Gen) node(parent string, depth, maxDepth int, deletedAbove bool) str
 	if g.oddID != nil && !g.used && (depth == maxDepth || g.c.Kind == "probe" || g.r.Intn(3) == 0) {
 		id = *g.oddID
 		g.used = true
+	} else if g.twin != "" {
+		// the second of two ids that differ only in the case of a letter: two nodes all the same
+		id, g.twin = g.twin, ""
+	} else if g.c.Kind != "probe" && !g.twins && g.r.Intn(5) == 0 {
+		g.twin, g.twins = id, true
+		id = strings.ToUpper(id[:1]) + id[1:]
 	}
 	ns := c15NodeSpec{ID: id, Type: c15NodeTypes[g.r.Intn(len(c15NodeTypes))], Parent: parent, Pts: []sPoint{}, EPts: []sPoint{}}
 	// a tag unique in the tree, so that children can be told apart whatever their order
@@ -1116,6 +1124,9 @@ func (g *c15Gen) node(parent string, depth, maxDepth int, deletedAbove bool) str
 		}
 		if depth >= 2 && fan > 2 {
 			fan = g.r.Intn(3)
+		}
+		if depth == 0 && g.c.Kind != "probe" && g.r.Intn(8) == 0 {
+			fan = 9 + g.r.Intn(5) // a node with a dozen children, which have children of their own
 		}
 		// a probe carries its scalar on the top node only, so that it is certainly exported
 		keepS, keepF, keepI := g.risky, g.riskF, g.oddID
@@ -1404,6 +1415,13 @@ func c15Run(cfg *config) error {
 		for k := 0; k < 520; k++ {
 			wide.Nodes = append(wide.Nodes, c15NodeSpec{ID: fmt.Sprintf("w%d-%d", id, k), Type: "variable", Parent: wide.Top,
 				Pts: []sPoint{{Type: "description", Text: fmt.Sprintf("child %d", k)}, {Type: "value", VBits: math.Float64bits(float64(k))}}, EPts: []sPoint{}})
+		}
+		// ... and some of the children, early and late ones in the listing, have children of their own
+		for _, k := range []int{0, 1, 2, 3, 5, 7, 8, 9, 100, 519} {
+			for j := 0; j < 2; j++ {
+				wide.Nodes = append(wide.Nodes, c15NodeSpec{ID: fmt.Sprintf("w%d-%d-%d", id, k, j), Type: "variable", Parent: fmt.Sprintf("w%d-%d", id, k),
+					Pts: []sPoint{{Type: "description", Text: fmt.Sprintf("grandchild %d.%d", k, j)}}, EPts: []sPoint{}})
+			}
 		}
 		cases = append(cases, wide)
 	}
